@@ -38,6 +38,7 @@ func (prop) Assumptions() []string {
 		"'all byte strings' is exhaustive only up to the stated length over the stated alphabet; longer inputs are reached by mutation of real scripts",
 		"a watchdog expiry (no journal progress for 120 s) while a front-end call is running counts as a hang",
 		"udf: all byte strings of length <=3 over {00,01,08,0a,12,7f,80,ff}, truncated/over-long varint sizes (2^31..2^64-1), well-framed but semantically hostile responses (End without Begin, negative sizes, nil oneof payloads, unsolicited responses) and seeded mutations of valid frames are fed to a real udf.Server",
+		"lamdata: generated hostile-but-parsable lambdas (ill-typed operands, unary operators on anything incl. regex literals, references wrapped in unary operators or lambda vars) run inside where/eval/alert/stateCount nodes of real tasks that receive points whose field types drift and whose fields go missing",
 		"the HTTP write route is exercised by C02 / C20",
 	}
 }
@@ -101,6 +102,13 @@ func (prop) Cases(tier string, seed uint64) []core.Case {
 		cs = append(cs, core.Case{ID: fmt.Sprintf("json-%d", i), Kind: "json", Seed: seed*137 + uint64(i), N: 300})
 	}
 	cs = append(cs, core.Case{ID: "leak", Kind: "leak", Seed: seed})
+	nl := 32
+	if tier == "thorough" {
+		nl = 400
+	}
+	for i := 0; i < nl; i++ {
+		cs = append(cs, core.Case{ID: fmt.Sprintf("lamdata-%d", i), Kind: "lamdata", Seed: seed*149 + uint64(i), N: 120})
+	}
 	nu := 200
 	if tier == "thorough" {
 		nu = 8000
@@ -152,6 +160,8 @@ func (prop) Run(x *core.Ctx) {
 		runData(x)
 	case "udf":
 		runUDFPeer(x)
+	case "lamdata":
+		runLambdaData(x)
 	}
 }
 
